@@ -303,12 +303,21 @@ impl<Service: service::Service> ClientSharedState<Service> {
         self.prepare_channel_to_receive_responses(channel_id, request_id);
 
         self.active_request_counter.fetch_add(1, Ordering::Relaxed);
-        Ok(self.request_sender.deliver_offset(
+        match self.request_sender.deliver_offset(
             chunk,
             // All requests are delivered on the same channel, therefore we can use
             // ChannelId::new(0).
             ChannelId::new(0),
-        )?)
+        ) {
+            Ok(number_of_recipients) => Ok(number_of_recipients),
+            Err(e) => {
+                // the request did not become active, no PendingResponse will be created that
+                // returns the active request slot and closes the response channel
+                self.active_request_counter.fetch_sub(1, Ordering::Relaxed);
+                self.response_receiver.close_channel(channel_id, request_id);
+                Err(e.into())
+            }
+        }
     }
 
     pub(crate) fn update_connections(
